@@ -55,6 +55,14 @@ struct Both { int64_t i; double d; };
 static int64_t Both_C_Int(var self) { return ((struct Both*)self)->i; }
 static double Both_C_Float(var self) { return ((struct Both*)self)->d; }
 var Both = Cello(Both, Instance(C_Int, Both_C_Int), Instance(C_Float, Both_C_Float));
+/* a type that implements Show AND a class of the program's own whose name merely starts with "Show" (listed first): %$ writes
+   what its Show instance writes */
+struct ShowHex { int (*showhex)(var, var, int); };
+var ShowHex = Cello(ShowHex);
+struct Colour { int64_t v; };
+static int Colour_ShowHex(var self, var out, int pos) { return print_to(out, pos, "#%lx", $I(((struct Colour*)self)->v)); }
+static int Colour_Show(var self, var out, int pos) { return print_to(out, pos, "rgb(%li)", $I(((struct Colour*)self)->v)); }
+var Colour = Cello(Colour, Instance(ShowHex, Colour_ShowHex), Instance(Show, Colour_Show, NULL));
 static var mkarg(char kind, const char* v) {
   if (kind == 'B') { struct Both* b = alloc_raw(Both); b->i = strtoll(v, NULL, 10); b->d = (double)b->i + 0.25; return b; }
   if (kind == 'I') return new_raw(Int, $I(strtoll(v, NULL, 10)));
@@ -115,6 +123,8 @@ int main(int argc, char** argv) {
             char* p = strchr(w, ','); int64_t v[3] = {0, 0, 1}; int k = 0;
             while (p && p[1] && k < 3) { v[k++] = strtoll(p + 1, &p, 10); if (*p != ',') break; }
             a = new(Range, $I(v[0]), $I(v[1]), $I(v[2]));          /* (managed: a raw Range loses its helper objects to the collector - open finding F-C06-raw-view-helpers) */
+          } else if (w[1] == 'C') {                     /* a Colour (see above) */
+            a = alloc_raw(Colour); ((struct Colour*)a)->v = strtoll(w + 3, NULL, 10);
           } else if (w[1] == 'Z') {                     /* no object at all: shown as <NULL> */
             a = NULL;
           } else if (w[1] == 'Y') {                     /* a Type object (shown by its name) */
@@ -129,6 +139,7 @@ int main(int argc, char** argv) {
           } else a = mkarg(w[1], w + 3);
           args[na++] = a;
           var t = new_raw(String, $S("")); show_to(a, t, 0);
+          if (w[1] == 'C') { char want[64]; snprintf(want, sizeof want, "rgb(%ld)", (long)((struct Colour*)a)->v); if (strcmp(want, c_str(t)) != 0) showbad++; }
           parts[np] = strdup(c_str(t)); plen[np] = strlen(c_str(t)); isconv[np] = 1; np++;
           /* a container's text is not taken on trust: it must contain its elements' own show texts, each once, in iteration
              order, joined the way that container kind joins them (built here from foreach + show of every element) */
